@@ -138,8 +138,8 @@ impl Property for C09 {
     }
     fn runs(&self, tier: Tier) -> u64 {
         match tier {
-            Tier::Quick => 60_000,
-            Tier::Thorough => 3_000_000,
+            Tier::Quick => 400_000,
+            Tier::Thorough => 8_000_000,
         }
     }
     fn generate(&self, seed: u64, index: u64, _tier: Tier) -> Trace {
@@ -286,7 +286,7 @@ impl Property for C10 {
     }
     fn runs(&self, tier: Tier) -> u64 {
         match tier {
-            Tier::Quick => 40_000,
+            Tier::Quick => 200_000,
             Tier::Thorough => 2_000_000,
         }
     }
@@ -355,6 +355,12 @@ struct Obs15<'a> {
     cov: &'a mut Coverage,
     twin: Option<Screen>,
     twin_prev: Option<Snapshot>,
+    /// RIS events as the parser delivered them
+    parser_resets: Vec<Op>,
+}
+
+fn owns_reset(op: &Op) -> bool {
+    *op == Op::Reset
 }
 
 impl<'a> Observer for Obs15<'a> {
@@ -363,6 +369,9 @@ impl<'a> Observer for Obs15<'a> {
     }
     fn step(&mut self, ctx: &StepCtx) -> Result<(), Violation> {
         let low = ctx.op.lower();
+        if low == Op::Reset && ctx.actor == Actor::Feeder {
+            self.parser_resets.push(Op::Reset);
+        }
         if low == Op::Reset {
             // power-on state of the current dimensions
             let fresh = Screen::new(ctx.post.columns, ctx.post.lines);
@@ -439,7 +448,7 @@ impl Property for C15 {
     }
     fn runs(&self, tier: Tier) -> u64 {
         match tier {
-            Tier::Quick => 50_000,
+            Tier::Quick => 200_000,
             Tier::Thorough => 2_500_000,
         }
     }
@@ -473,14 +482,34 @@ impl Property for C15 {
         if r.chance(1, 2) {
             h.steps.push(Step::Apply(100_000));
         }
+        if r.chance(1, 4) {
+            // a second RIS with only embedder-side calls in between
+            let k = r.range(1, 3);
+            let g = gen::Geo { cols: h.columns, lines: h.lines };
+            for _ in 0..k {
+                match r.below(4) {
+                    0 => {
+                        let (l, c) = gen::resize_target(&mut r, g, g);
+                        h.steps.push(Step::Resize(l, c));
+                    }
+                    1 => h.steps.push(Step::Paint),
+                    _ => h.steps.push(Step::Api(gen::api_op(&mut r, g, Focus::Any))),
+                }
+            }
+            h.steps.push(Step::Feed(b"\x1bc".to_vec()));
+            h.steps.push(Step::Apply(100_000));
+        }
         h.steps.extend(t.steps.into_iter().filter(|s| !matches!(s, Step::Charset(_)) || h.front == crate::trace::Front::Bytes));
         h.kind = format!("{}+RIS+{}", h.kind, t.kind);
         h
     }
     fn check(&self, trace: &Trace, cov: &mut Coverage) -> Result<(), Violation> {
-        let mut obs = Obs15 { cov, twin: None, twin_prev: None };
+        let mut obs = Obs15 { cov, twin: None, twin_prev: None, parser_resets: vec![] };
         let stats = exec::run_q(trace, &mut obs).map(|x| x.0)?;
+        let delivered = std::mem::take(&mut obs.parser_resets);
         common_cov(cov, &stats);
+        // every ESC c in the stream must reach the screen as a reset, and nothing else may
+        crate::props::steps::parser_path("C15", trace, &delivered, owns_reset, cov)?;
         Ok(())
     }
     fn owns_panic(&self, op: &str) -> bool {
@@ -639,8 +668,8 @@ impl Property for C17 {
     }
     fn runs(&self, tier: Tier) -> u64 {
         match tier {
-            Tier::Quick => 60_000,
-            Tier::Thorough => 3_000_000,
+            Tier::Quick => 400_000,
+            Tier::Thorough => 8_000_000,
         }
     }
     fn generate(&self, seed: u64, index: u64, _tier: Tier) -> Trace {
